@@ -6,7 +6,7 @@
    arithmetic closed by case analysis on the atomic comparisons and lia. *)
 From Coq Require Import List ZArith String Bool Lia ZifyBool.
 Import ListNotations.
-Require Import Naga.Base.Bits32 Naga.Base.F32 Naga.IR.Syntax Naga.IR.Values Naga.IR.Sem Naga.Hlsl.Syntax Naga.Hlsl.Ops Naga.Hlsl.Sem Naga.Hlsl.Catalogue.
+Require Import Naga.Base.Bits32 Naga.Base.F32 Naga.IR.Syntax Naga.IR.Values Naga.IR.Sem Naga.Hlsl.Syntax Naga.Hlsl.Ops Naga.Hlsl.Sem Naga.Hlsl.FloatConv Naga.Hlsl.Catalogue.
 Open Scope string_scope.
 Open Scope Z_scope.
 Ltac Zify.zify_post_hook ::= Z.to_euclidean_division_equations.
@@ -608,6 +608,49 @@ Proof.
       do 2 f_equal. apply sub_mul_quot_rem; apply sgn_mod; assumption.
 Qed.
 
+
+
+(* ---- naga_f2i32 / naga_f2u32: int(clamp(value, lo, hi)) from the emitted helper body.
+   For every non-NaN operand below 2^31 (2^32) the conversion is defined in HLSL (the clamped float
+   is finite and in range) and yields the WGSL value.  Outside that set: NaN is WGSL-indeterminate
+   (Base/F32.v picks 0, the helper yields INT_MIN / 0); for operands >= 2^31 (2^32) the helper yields
+   2147483520 (4294967040), the largest float below the bound, where Base/F32.v saturates to
+   2147483647 (4294967295) - see the examples below and DialectChoices.md. ---- *)
+Lemma fneg_T31 : fneg 1325400064 = 3472883712. Proof. vm_compute. reflexivity. Qed.
+
+Lemma hlsl_As_i32_f32_correct : forall (a : Z), in32 a -> f2i32_defined a = true ->
+  eval_template h_As_i32_f32 [("a", TScal KFloat, VF32 a)] t_As_i32_f32 = Done (VI32 (i32_of_f32 a)).
+Proof.
+  intros a Ha Hd. unfold f2i32_defined in Hd. apply andb_prop in Hd. destruct Hd as [H1 H2].
+  apply negb_true_iff in H1. apply negb_true_iff in H2.
+  pose proof (f2i32_core a H1 H2) as K. cbv zeta in K. unfold FloatConv.LO, FloatConv.HI in K.
+  destruct K as (N & R & M).
+  teval. rewrite fneg_T31. rewrite N. repeat ground_step.
+  assert (X1 : (-2147483648 <=? trunc_or_zero (fmin (fmax a 3472883712) 1325400063)) = true) by (apply Z.leb_le; lia).
+  assert (X2 : (trunc_or_zero (fmin (fmax a 3472883712) 1325400063) <? 2147483648) = true) by (apply Z.ltb_lt; lia).
+  rewrite X1, X2. cbv iota. rewrite M. reflexivity.
+Qed.
+
+Lemma hlsl_As_u32_f32_correct : forall (a : Z), in32 a -> f2u32_defined a = true ->
+  eval_template h_As_u32_f32 [("a", TScal KFloat, VF32 a)] t_As_u32_f32 = Done (VU32 (u32_of_f32 a)).
+Proof.
+  intros a Ha Hd. unfold f2u32_defined in Hd. apply andb_prop in Hd. destruct Hd as [H1 H2].
+  apply negb_true_iff in H1. apply negb_true_iff in H2.
+  pose proof (f2u32_core a H1 H2) as K. cbv zeta in K. unfold FloatConv.HIU in K.
+  destruct K as (N & R & M).
+  teval. rewrite N. repeat ground_step.
+  assert (X1 : (0 <=? trunc_or_zero (fmin (fmax a 0) 1333788671)) = true) by (apply Z.leb_le; lia).
+  assert (X2 : (trunc_or_zero (fmin (fmax a 0) 1333788671) <? 4294967296) = true) by (apply Z.ltb_lt; lia).
+  rewrite X1, X2. cbv iota. rewrite Z.mod_small by lia. rewrite M. reflexivity.
+Qed.
+
+(* what the helpers return outside the set above (not WGSL-defined / open question) *)
+Example naga_f2i32_of_nan : eval_template h_As_i32_f32 [("a", TScal KFloat, VF32 QNAN)] t_As_i32_f32 = Done (VI32 2147483648).
+Proof. vm_compute. reflexivity. Qed.
+Example naga_f2i32_of_3e9 : eval_template h_As_i32_f32 [("a", TScal KFloat, VF32 1328702942)] t_As_i32_f32 = Done (VI32 2147483520).
+Proof. vm_compute. reflexivity. Qed.
+Example naga_f2u32_of_inf : eval_template h_As_u32_f32 [("a", TScal KFloat, VF32 2139095040)] t_As_u32_f32 = Done (VU32 4294967040).
+Proof. vm_compute. reflexivity. Qed.
 
 (* ---- vector and matrix operands: one lemma per shape; the WGSL side is the operator of the IR semantics itself (eval_binary, eval_math, eval_relational of IR/Sem.v on IR/Values.v) ---- *)
 Ltac seval :=
@@ -1265,8 +1308,8 @@ Proof.
   - entry_by hlsl_As_i32_u32_correct.
   - entry_by hlsl_As_f32_u32_correct.
   - entry_by hlsl_As_bool_u32_correct.
-  - exact I.
-  - exact I.
+  - entry_by hlsl_As_i32_f32_correct.
+  - entry_by hlsl_As_u32_f32_correct.
   - entry_by hlsl_As_bool_f32_correct.
   - entry_by hlsl_As_i32_bool_correct.
   - entry_by hlsl_As_u32_bool_correct.
